@@ -310,7 +310,7 @@ class CSSImportRule(cssrule.CSSRule):
                     encodingOverride=encodingOverride,
                     encoding=encoding)
 
-            except (OSError, IOError, ValueError) as e:
+            except (OSError, IOError, ValueError, LookupError) as e:
                 self._log.warn('CSSImportRule: While processing imported '
                                'style sheet href=%s: %r'
                                % (self.href, e), neverraise=True)
